@@ -361,6 +361,33 @@ func (i *interpreter) symBinop(op token.Token, t types.Type, x, y value) value {
 		return norm(t, c.Bin(smt.OBvXor, a, b))
 	case token.AND_NOT:
 		return norm(t, c.Bin(smt.OBvAnd, a, c.BvNot(b)))
+	case token.EQL, token.NEQ, token.LSS, token.LEQ, token.GTR, token.GEQ:
+		if signed && w == 64 && i.path != nil && i.opts.Replay == nil {
+			// comparisons of durations built as seconds*1e9+nanoseconds: multiplication-free form
+			var r *smt.Term
+			var ok bool
+			switch op {
+			case token.EQL:
+				r, ok = i.compareScaled("eq", a, b)
+			case token.NEQ:
+				if r, ok = i.compareScaled("eq", a, b); ok {
+					r = c.Not(r)
+				}
+			case token.LSS:
+				r, ok = i.compareScaled("lt", a, b)
+			case token.LEQ:
+				r, ok = i.compareScaled("le", a, b)
+			case token.GTR:
+				r, ok = i.compareScaled("lt", b, a)
+			case token.GEQ:
+				r, ok = i.compareScaled("le", b, a)
+			}
+			if ok {
+				return normBool(r)
+			}
+		}
+	}
+	switch op {
 	case token.EQL:
 		return normBool(c.Eq(a, b))
 	case token.NEQ:
